@@ -36,26 +36,40 @@ def run(ctx):
         ctx.check("C16.R1", f"{k}: base type per specification", ok, LW.mod.relpath + ":LOGICAL_WRITERS", f"{k}: base {base}, specification {want}", "the logical type annotates a different base type than the specification prescribes")
 
     ctx.rule("C16.R2", "prepare before the table writer and before the validator; logical reader after decoding, keyed by the writer schema", floor=3)
+
+    def parts(text):
+        try:
+            c = ast.parse(text, mode="eval").body
+        except SyntaxError:
+            return None
+        if not isinstance(c, ast.Call):
+            return None
+        return norm(c.func), [norm(x) for x in c.args], {k.arg: norm(k.value) for k in c.keywords if k.arg}
+
     wd = p.func("_write_py:write_data")
-    cfg = cfg_of(wd)
-    prep = [n for n in walk_local(wd.node) if isinstance(n, ast.Assign) and norm(n) == "datum = prepare(datum, schema)"]
-    tcall = [n for n in walk_local(wd.node) if isinstance(n, ast.Call) and isinstance(n.func, ast.Name) and n.func.id == "fn"]
-    src = [n for n in walk_local(wd.node) if isinstance(n, ast.Assign) and norm(n) == "prepare = LOGICAL_WRITERS.get(logical_type)"]
-    ok = len(prep) == 1 and len(tcall) == 1 and len(src) == 1 and cfg.node_of(tcall[0]) in cfg.reachable_from(cfg.node_of(prep[0])) and cfg.node_of(prep[0]) not in cfg.reachable_from(cfg.node_of(tcall[0])) and norm(tcall[0].args[1]) == "datum"
-    ctx.check("C16.R2", "write_data: datum = prepare(datum, schema) precedes the table writer, which receives the prepared datum", ok, wd.where(), "write_data: prepare / fn order", "the table writer would encode the unconverted Python value")
+    D, S = wd.pos_params[1], wd.pos_params[2]
+    prep = f"LOGICAL_WRITERS.get(extract_logical_type({S}))"
+    sums = [s for s in summaries(cfg_of(wd)) if s.kind == "return" and s.text.startswith("WRITERS.get(")]
+    with_prep = [s for s in sums if prep in s.facts]
+    ok = bool(with_prep) and all((parts(s.text) or ("", ["", ""], {}))[1][1:2] == [f"{prep}({D}, {S})"] for s in with_prep) and all((parts(s.text) or ("", ["", ""], {}))[1][1:2] == [D] for s in sums if s not in with_prep)
+    ctx.check("C16.R2", "write_data: datum = prepare(datum, schema) precedes the table writer, which receives the prepared datum", ok, wd.where(), f"write_data: table writer called as {sorted({s.text[:110] for s in sums})}", "the table writer would encode the unconverted Python value")
     vf = p.func("_validation_py:_validate")
-    cfg = cfg_of(vf)
-    prep = [n for n in walk_local(vf.node) if isinstance(n, ast.Assign) and norm(n) == "datum = prepare(datum, schema)"]
-    vcall = [n for n in walk_local(vf.node) if isinstance(n, ast.Call) and isinstance(n.func, ast.Name) and n.func.id == "validator"]
-    ok = len(prep) == 1 and len(vcall) == 1 and cfg.node_of(vcall[0]) in cfg.reachable_from(cfg.node_of(prep[0])) and cfg.node_of(prep[0]) not in cfg.reachable_from(cfg.node_of(vcall[0]))
-    ctx.check("C16.R2", "_validate: the value is prepared before the per-type validator sees it", ok, vf.where(), "_validate: prepare / validator order", "logical values (datetime, Decimal, UUID) would be rejected by the base-type validators")
+    D, S = vf.pos_params[0], vf.pos_params[1]
+    prep = f"LOGICAL_WRITERS.get(extract_logical_type({S}))"
+    sums = [s for s in summaries(cfg_of(vf)) if s.kind == "return" and s.text.startswith("VALIDATORS.get(")]
+    with_prep = [s for s in sums if prep in s.facts]
+    ok = bool(with_prep) and all((parts(s.text) or ("", [""], {}))[1][:1] in ([f"{prep}({D}, {S})"], [f"{prep}(None, {S})"]) for s in with_prep)
+    ctx.check("C16.R2", "_validate: the value is prepared before the per-type validator sees it", ok, vf.where(), f"_validate: validator called as {sorted({s.text[:100] for s in with_prep})}", "logical values (datetime, Decimal, UUID) would be rejected by the base-type validators")
     rd = p.func("_read_py:read_data")
-    cfg = cfg_of(rd)
-    dec = [n for n in walk_local(rd.node) if isinstance(n, ast.Assign) and norm(n.targets[0]) == "data" and isinstance(n.value, ast.Call) and norm(n.value.func) == "reader_fn"]
-    lr = [n for n in walk_local(rd.node) if isinstance(n, ast.Return) and norm(n.value) == "fn(data, writer_schema, reader_schema)"]
-    key = [n for n in walk_local(rd.node) if isinstance(n, ast.Assign) and norm(n) == "logical_type = extract_logical_type(writer_schema)"]
-    ok = len(dec) == 1 and len(lr) == 1 and len(key) == 1 and cfg.dominates(cfg.node_of(dec[0]), cfg.node_of(lr[0])) and any(norm(t.ast) == "'logicalType' in writer_schema" and lab == "true" for (t, lab) in cfg.guards_of(cfg.node_of(lr[0])))
-    ctx.check("C16.R2", "read_data: the logical reader converts the decoded value and is chosen by the writer schema's annotation", ok, rd.where(), "read_data: logical read placement", "the conversion must follow decoding and be keyed by what the writer annotated")
+    W = rd.pos_params[1]
+    lr = f"LOGICAL_READERS.get(extract_logical_type({W}))"
+    sums = [s for s in summaries(cfg_of(rd)) if s.kind == "return"]
+    conv = [s for s in sums if lr in s.facts and f"'logicalType' in {W}" in s.facts and any(x.startswith("READERS.get(") for x in s.facts)]
+    ok = bool(conv)
+    for s in conv:
+        pp_ = parts(s.text)
+        ok = ok and pp_ is not None and pp_[0] == lr and len(pp_[1]) >= 2 and pp_[1][0].startswith("READERS.get(") and pp_[1][1] == W
+    ctx.check("C16.R2", "read_data: the logical reader converts the decoded value and is chosen by the writer schema's annotation", ok, rd.where(), f"read_data: logical paths return {sorted({s.text[:90] for s in conv})}", "the conversion must follow decoding and be keyed by what the writer annotated")
 
     ctx.rule("C16.R3", "UTC variants use the aware epoch, local variants the naive epoch / replace(tzinfo=utc) (sibling agreement)", floor=8)
     lrm = p.module("_logical_readers_py")
